@@ -497,6 +497,60 @@ func checkKeyFetcherPool(c *fw.Ctx) {
 		}
 	}
 	c.Min(rule+" go statements", goes, 1)
+	// the job queue cannot block its producer for ever: a plain (blocking) send that can happen
+	// after the workers were started is only safe if the workers never stop receiving before the
+	// queue is closed; a worker that can return for another reason (its context ended) leaves
+	// the producer blocked on a full queue, and Wait() is never reached
+	{
+		construct := "the producer of the job queue cannot block for ever"
+		var goBlocks []*ssa.BasicBlock
+		for _, call := range fw.Calls(fn) {
+			if g, ok := call.(*ssa.Go); ok {
+				goBlocks = append(goBlocks, g.Block())
+			}
+		}
+		lateSend := ""
+		for _, b := range fn.Blocks {
+			for _, ins := range b.Instrs {
+				snd, ok := ins.(*ssa.Send)
+				if !ok {
+					continue
+				}
+				for _, gb := range goBlocks {
+					if gb == b || fw.ReachableFrom(gb, nil)[b] {
+						lateSend = c.P.Pos(snd.Pos())
+					}
+				}
+			}
+		}
+		// can the worker return before the queue is closed? a return dominated by a condition
+		// that is not the comma-ok of a receive
+		early := ""
+		for _, wf := range fw.FamilyOf(worker) {
+			if wf != worker {
+				continue
+			}
+			for _, r := range fw.Returns(wf) {
+				for _, f := range fw.DomConds(r.Block()) {
+					sg := f.Sig
+					if strings.Contains(sg, "<-") || strings.Contains(sg, "recv") && strings.Contains(sg, "#1") || strings.Contains(sg, "next(range(") {
+						continue
+					}
+					if strings.Contains(sg, ".Err(") || strings.Contains(sg, ".Done(") {
+						early = f.String() + " (return at " + c.P.Pos(fw.InstrPos(r)) + ")"
+					}
+				}
+			}
+		}
+		switch {
+		case lateSend != "" && early != "":
+			c.Fail(rule, construct, lateSend, "jobs are sent (blocking) at "+lateSend+" after the workers were started, and a worker can return under "+early+" while jobs remain: once every worker has gone the producer blocks on the full queue for ever and FetchKeys never returns")
+		case lateSend != "":
+			c.Undecided(rule, construct, "jobs are sent after the workers were started (at "+lateSend+"); whether a worker can stop early was not established")
+		default:
+			c.Ok(rule, construct, c.P.Pos(fn.Pos()), "the queue is filled before the workers start (or there is no blocking send)")
+		}
+	}
 	// writes to the shared result map inside the worker and the closures nested in it
 	held := fw.HeldAt(worker)
 	nw := 0
